@@ -174,6 +174,65 @@ impl IfChanged {
 //@ end
 }
 
+// ---------------- cycle ----------------
+/// HashMap<String, usize> of cycle positions (stand-in; state behind RefCell is not modelled: `entry().or_insert()` hands out
+/// an arbitrary stored position, assumed <= isize::MAX because every stored position is 0 or the result of `% len`)
+#[verifier::external_body]
+pub struct CycleMap { _p: u8 }
+#[verifier::external_body]
+pub struct CycleEntry<'a> { _p: &'a mut u8 }
+impl CycleMap {
+    #[verifier::external_body]
+    pub fn entry(&mut self, k: String) -> (e: CycleEntry<'_>) { unimplemented!() }
+}
+impl<'a> CycleEntry<'a> {
+    #[verifier::external_body]
+    pub fn or_insert(self, v: usize) -> (r: &'a mut usize) ensures *r <= isize::MAX as usize { unimplemented!() }
+}
+impl Error {
+    #[verifier::external_body]
+    pub fn with_msg(msg: &'static str) -> Error { unimplemented!() }
+    #[verifier::external_body]
+    pub fn context<K, V>(self, key: K, value: V) -> Error { unimplemented!() }
+}
+pub struct CycleRegister { pub cycles: CycleMap }
+impl RegisterDefault for CycleRegister { }
+impl CycleRegister {
+//@ item crates/lib/src/stdlib/tags/cycle_tag.rs :: impl CycleRegister::cycle
+//@ props C02 C10
+//@ sig fn cycle<'e>(&mut self, name: &str, values: &'e [Expression]) -> (r: Result<&'e Expression>)
+//@ spec
+    ensures
+        values@.len() == 0 ==> r is Err,                                                   // [C02:cycle_without_values_is_an_error]
+        r matches Ok(e) ==> (exists|k: int| 0 <= k < values@.len() && *e == #[trigger] values@[k]),   // [C02:cycle_picks_one_of_its_values]
+//@ end
+//@ item crates/lib/src/stdlib/tags/cycle_tag.rs :: impl CycleRegister::cycle_index
+//@ props C02
+//@ sig fn cycle_index(&mut self, name: &str, max: usize) -> (r: usize)
+//@ spec
+    requires max > 0,       // call site: cycle() after its emptiness check
+//@ end
+}
+pub struct Cycle { pub name: String, pub values: Vec<Expression> }
+impl Cycle {
+    #[verifier::external_body]
+    fn trace(&self) -> String { unimplemented!() }
+//@ item crates/lib/src/stdlib/tags/cycle_tag.rs :: impl Renderable for Cycle::render_to
+//@ props C10 C02
+//@ sig fn render_to(&self, writer: &mut Sink, runtime: &dyn Runtime) -> (r: Result<()>)
+//@ spec
+    requires !old(writer).failed@,
+    ensures
+        sink_safe(*old(writer), *final(writer), r),                                               // [C10:cycle_failed_sink_is_error]
+        r is Ok ==> final(writer).log@ == old(writer).log@.push(Ev::Write("{}"@)),                // [C10:cycle_writes_exactly_once]
+        r is Err ==> final(writer).log@ == old(writer).log@,
+//@ closure 0 arg_of=trace_with params=
+|| -> (k: KString)
+//@ closure 1 arg_of=trace_with params=
+|| -> (k: KString)
+//@ end
+}
+
 // ---------------- break / continue and the interrupt register ----------------
 //@ item crates/core/src/runtime/runtime.rs :: enum Interrupt
 //@ kind enum
